@@ -448,6 +448,19 @@ string Subprocess::communicate(
     throw runtime_error("Subprocess::communicate timed out");
   }
 
+  // The process may have terminated with output still in the pipe; read
+  // whatever is left (without blocking, in case another process still holds
+  // the write end open)
+  while ((this->stdout_read_fd >= 0) && p.poll(0).count(this->stdout_read_fd)) {
+    stdout_queue.emplace_back(read(this->stdout_read_fd, 4096));
+    if (stdout_queue.back().empty()) {
+      p.remove(this->stdout_read_fd, true);
+      this->stdout_read_fd = -1;
+    } else {
+      stdout_bytes += stdout_queue.back().size();
+    }
+  }
+
   if (stdout_queue.empty()) {
     return "";
   } else if (stdout_queue.size() == 1) {
